@@ -28,6 +28,17 @@ type MemCore struct {
 	enc zapcore.Encoder
 	r   *ring.Ring
 	mu  *sync.RWMutex
+	// root is the core whose ring cursor and lock all cores derived with With() write through;
+	// nil for the root core itself
+	root *MemCore
+}
+
+// owner returns the core that owns the ring cursor and its lock
+func (mc *MemCore) owner() *MemCore {
+	if mc.root != nil {
+		return mc.root
+	}
+	return mc
 }
 
 /*MemLogger - a struct for ring buffered inmemory logger */
@@ -56,7 +67,9 @@ func (ml *MemLogger) GetCore() zapcore.Core {
 /*GetLogs - get the inmemory logs */
 func (ml *MemLogger) GetLogs() []*observer.LoggedEntry {
 	var index = BufferSize - 1
-	mc := ml.core
+	mc := ml.core.owner()
+	mc.mu.RLock()
+	defer mc.mu.RUnlock()
 	logs := make([]*observer.LoggedEntry, BufferSize)
 	mc.r.Do(func(val interface{}) {
 		if val != nil {
@@ -122,20 +135,14 @@ func (mc *MemCore) Check(ent zapcore.Entry, ce *zapcore.CheckedEntry) *zapcore.C
 
 /*Write - implement interface */
 func (mc *MemCore) Write(ent zapcore.Entry, fields []zapcore.Field) error {
+	// a core derived with With() writes through the cursor and the lock of the root core: with a cursor of its
+	// own it would overwrite entries written since it was derived
+	mc = mc.owner()
 	mc.mu.Lock()
 	defer mc.mu.Unlock()
 
-	var entry *observer.LoggedEntry
-	r := mc.r
-	v := r.Value
-	if v == nil {
-		entry = &observer.LoggedEntry{}
-		r.Value = entry
-	} else {
-		entry = v.(*observer.LoggedEntry)
-	}
-	entry.Entry = ent
-	entry.Context = fields
+	// always a new entry: an entry handed out by GetLogs must not change when the slot is written again
+	mc.r.Value = &observer.LoggedEntry{Entry: ent, Context: fields}
 	mc.r = mc.r.Next()
 	return nil
 }
@@ -153,5 +160,6 @@ func (mc *MemCore) clone() *MemCore {
 		enc:          mc.enc.Clone(),
 		r:            mc.r,
 		mu:           &sync.RWMutex{},
+		root:         mc.owner(),
 	}
 }
